@@ -186,8 +186,12 @@ def permute_systems(
             input_mat = input_mat.toarray()
         # If `input_mat` is a 1-by-X row vector, ensure we "flatten it" appropriately:
         if input_mat.shape[0] == 1:
+            is_single_row = len(input_mat.shape) > 1
             input_mat = input_mat[0]
             vec_orien = 1
+            # Only the rows are permuted and a 1-by-X matrix has a single row: nothing moves.
+            if row_only and is_single_row:
+                return np.array(input_mat)
         # Rather than using subtraction to generate new indices,
         # it's better to use methods designed for handling permutations directly.
         # This avoids the risk of negative indices and is more straightforward.
